@@ -165,12 +165,18 @@ def plugin(ctx: Ctx, rule="R-C10-PLUGIN") -> None:
     ctx.require(inner is not None, f"{m.qualname}: inner wrapper not found")
     g = ctx.cfg(inner)
     fn_calls = [n for n in g.calls() if n.callee == "fn"]
-    runs = [n for n in g.calls() if isinstance(n.ast.func, ast.Attribute) and n.ast.func.attr == "run" and "_worker_constructor" in unparse(n.ast)]
+    mi = ctx.func("repid.testing.modifiers.RunWorkerOnEnqueueModifier.__init__")
+    ctor_param = [p_.arg for p_ in mi.params()][2]
+    ctor_attrs = {t.attr for n in ast.walk(mi.node) if isinstance(n, ast.Assign) and dotted(n.value) == ctor_param for t in n.targets if isinstance(t, ast.Attribute)}
+    runs = [n for n in g.calls() if isinstance(n.ast.func, ast.Attribute) and n.ast.func.attr == "run" and isinstance(n.ast.func.value, ast.Call)
+            and isinstance(n.ast.func.value.func, ast.Attribute) and n.ast.func.value.func.attr in ctor_attrs]
     ctx.require(bool(fn_calls) and bool(runs), f"{inner.qualname}: wrapped enqueue / worker run not found")
     aw = await_map(g)
     ctx.check(all(flow.must_pass(g, g.entry.id, [r.id], [aw[c.id].id for c in fn_calls if c.id in aw], flow.NORMAL_KINDS) for r in runs) and all(r.id in aw for r in runs), rule,
               inner, "worker run awaited after the real enqueue", "enqueue, then process exactly that job",
               "run-on-enqueue does not await the real enqueue before running the worker (or does not await the run)", instance="plugin order")
     rets = [n for n in g.nodes if n.kind == "return"]
-    ctx.check(all(isinstance(n.ast.value, ast.Name) and n.ast.value.id == "result" for n in rets), rule, inner, "wrapped enqueue returns the real result", "result passed through",
+    res_names = {t.id for n in ast.walk(inner.node) if isinstance(n, ast.Assign) and isinstance(n.value, ast.Await) and isinstance(n.value.value, ast.Call) and dotted(n.value.value.func) == "fn"
+                 for t in n.targets if isinstance(t, ast.Name)}
+    ctx.check(bool(res_names) and all(isinstance(n.ast.value, ast.Name) and n.ast.value.id in res_names for n in rets), rule, inner, "wrapped enqueue returns the real result", "result passed through",
               "run-on-enqueue wrapper does not return the real enqueue's result", instance="plugin result")
